@@ -294,12 +294,12 @@ impl WriteSource for pr::ExprKind {
 
 fn break_line_within_parenthesis<T: WriteSource>(expr: &T, mut opt: WriteOpt) -> Option<String> {
     let mut r = "(\n".to_string();
-    opt.indent += 1;
+    opt.indent = opt.indent.saturating_add(1);
     r += &opt.write_indent();
     opt.reset_line()?;
     r += &expr.write(opt.clone())?;
     r += "\n";
-    opt.indent -= 1;
+    opt.indent = opt.indent.saturating_sub(1);
     r += &opt.write_indent();
     r += ")";
     Some(r)
@@ -512,11 +512,11 @@ impl WriteSource for pr::Stmt {
             }
             pr::StmtKind::ModuleDef(module_def) => {
                 r += &format!("module {} {{\n", write_ident_part(&module_def.name));
-                opt.indent += 1;
+                opt.indent = opt.indent.saturating_add(1);
 
                 r += &module_def.stmts.write(opt.clone())?;
 
-                opt.indent -= 1;
+                opt.indent = opt.indent.saturating_sub(1);
                 r += &opt.write_indent();
                 r += "}\n";
             }
